@@ -254,7 +254,7 @@ def run_family(fam, programs, log):
         if os.path.exists(jpath):
             os.remove(jpath)
         hsel = []
-        if sum(len(p.harnesses) for p in progs) <= 8:
+        if sum(len(p.harnesses) for p in progs) <= 60:
             for p in progs:
                 for h in p.harnesses:
                     hsel += ["--harness", "%s::proofs::%s" % (p.key, h.name)]
@@ -430,6 +430,28 @@ def decide(fam, tier, seed, max_playback=3):
             "counterexample": None, "program": p.src, "title": p.title, "verifier_output": blocks,
             "how_to_replay": "./check %s --replay <this file> (re-generates the program and re-runs rustc on the real macro)" % fam.prop})
         violations.append((key + "/expansion", path, "no-failing-input-found", what))
+    # 1b. programs that the property says must be REJECTED at compile time (a diagnostic instead of an arbitrary choice):
+    #     type-level obligation discharged by rustc -- accepted silently => violation
+    rejected_ok = []
+    for p in fam.programs:
+        if p.expect_compile:
+            continue
+        if p.key in dropped:
+            rejected_ok.append(p.key)
+            continue
+        okey = p.key + "/rejection"
+        what = "program %s (%s) must be rejected with a diagnostic but the derive accepted it and the expansion compiled" % (p.key, p.title)
+        kf = known_open(fam.prop, okey)
+        if kf:
+            known.append((okey, kf.get("what", what)))
+            continue
+        path = write_replay(fam.prop, p.key + "__rejection", {
+            "property": fam.prop, "obligation": okey + ": the derive must fail to compile on this program", "counterexample": None,
+            "program": p.src, "title": p.title, "verifier_output": "rustc accepted the program",
+            "how_to_replay": "./check %s --replay <this file>" % fam.prop})
+        violations.append((okey, path, "no-failing-input-found", what))
+    fam.extra_cov["must_reject_programs"] = len([p for p in fam.programs if not p.expect_compile])
+    fam.extra_cov["must_reject_rejected_by_rustc"] = len(rejected_ok)
     # 2. verifier outcomes
     n_pb = 0
     for pretty, r in results.items():
